@@ -43,6 +43,59 @@ func (ciParser) ParseBlock(_ context.Context, raw []byte) (*ciBlock, error) {
 	return &ciBlock{binary.BigEndian.Uint64(raw[p:])}, nil
 }
 
+var errCiInjectedCrash = errors.New("verif: injected crash")
+
+// ciCrashDB wraps the database handed to the index. While armed it lets `budget` more durable writes (Put, Delete,
+// batch Write) through and fails every later one, as if the process had died at that point; reads always work.
+type ciCrashDB struct {
+	database.Database
+	armed  bool
+	budget int
+	writes int // durable writes seen while armed (attempted)
+}
+
+func (c *ciCrashDB) allow() bool {
+	if !c.armed {
+		return true
+	}
+	c.writes++
+	if c.budget == 0 {
+		return false
+	}
+	c.budget--
+	return true
+}
+
+func (c *ciCrashDB) Put(k, v []byte) error {
+	if !c.allow() {
+		return errCiInjectedCrash
+	}
+	return c.Database.Put(k, v)
+}
+
+func (c *ciCrashDB) Delete(k []byte) error {
+	if !c.allow() {
+		return errCiInjectedCrash
+	}
+	return c.Database.Delete(k)
+}
+
+func (c *ciCrashDB) NewBatch() database.Batch {
+	return &ciCrashBatch{Batch: c.Database.NewBatch(), db: c}
+}
+
+type ciCrashBatch struct {
+	database.Batch
+	db *ciCrashDB
+}
+
+func (b *ciCrashBatch) Write() error {
+	if !b.db.allow() {
+		return errCiInjectedCrash
+	}
+	return b.Batch.Write()
+}
+
 func ciEnvInt(name string, def int) int {
 	if v, err := strconv.Atoi(os.Getenv(name)); err == nil {
 		return v
@@ -53,7 +106,7 @@ func ciEnvInt(name string, def int) int {
 type ciRec struct {
 	t     *testing.T
 	ctx   context.Context
-	db    database.Database
+	db    *ciCrashDB
 	ci    *chainindex.ChainIndex[*ciBlock]
 	freq  uint64
 	maxH  uint64
@@ -155,8 +208,37 @@ func (r *ciRec) restart(w uint64) {
 	r.observe(map[string]any{"ev": "restart", "w": w}, nil)
 }
 
+// crash performs accept(h) / save(h) with every durable write after the k-th failing, then reopens the index (same
+// window) on what reached the underlying memdb and observes it. Returns whether an injected failure was hit.
+func (r *ciRec) crash(op string, h, k, w uint64) bool {
+	if op == "accept" && h > r.maxH {
+		r.maxH = h
+	}
+	r.db.armed, r.db.budget, r.db.writes = true, int(k), 0
+	var err error
+	if op == "accept" {
+		err = r.ci.UpdateLastAccepted(r.ctx, &ciBlock{h})
+	} else {
+		err = r.ci.SaveHistorical(&ciBlock{h})
+	}
+	hit := r.db.writes > int(k) // a durable write of this call was refused
+	r.db.armed = false
+	if e := r.open(w); e != nil {
+		r.t.Fatalf("reopen after crash failed: %v", e)
+	}
+	m := map[string]any{"ev": "crash", "op": op, "h": h, "k": k, "w": w, "injected": hit, "writes": r.db.writes}
+	r.observe(m, nil)
+	if err != nil {
+		m["errtext"] = err.Error()
+		if !errors.Is(err, errCiInjectedCrash) {
+			m["res"] = "err" // an error that is not the injected one, on a healthy database
+		}
+	}
+	return hit
+}
+
 func newCiRec(t *testing.T, w, freq uint64) *ciRec {
-	r := &ciRec{t: t, ctx: context.Background(), db: memdb.New(), freq: freq}
+	r := &ciRec{t: t, ctx: context.Background(), db: &ciCrashDB{Database: memdb.New()}, freq: freq}
 	if err := r.open(w); err != nil {
 		t.Fatal(err)
 	}
@@ -183,7 +265,7 @@ func (r *ciRec) stored(h uint64) bool {
 	return err == nil
 }
 
-// TestVerifChainIndexRecord writes (a) every history of VERIF_SYSDEPTH steps over a small op alphabet for windows
+// TestVerifChainIndexRecord writes (c) the crash family (see below), (a) every history of VERIF_SYSDEPTH steps over a small op alphabet for windows
 // 0..3 (systematic part) and (b) VERIF_SCENARIOS seeded random long histories.
 func TestVerifChainIndexRecord(t *testing.T) {
 	if os.Getenv("VERIF_OUT") == "" {
@@ -252,6 +334,68 @@ func TestVerifChainIndexRecord(t *testing.T) {
 		}
 	}
 
+	// (c) crash family: windows 0..3; a prefix of consecutive accepts (optionally one historical save or a gap);
+	// then an accept / gap accept / historical save cut short after k = 0..3 durable writes and a reopen; then two
+	// more accepts and a clean restart.
+	n = 0
+	for w0 := uint64(0); w0 <= 3; w0++ {
+		for pre := uint64(1); pre <= w0+3; pre++ {
+			for variant := 0; variant < 3; variant++ { // plain / with a save below the tip / prefix ends with a gap
+				for opi, op := range []string{"accept", "accept-gap", "save"} {
+					for k := uint64(0); k <= 3; k++ {
+						name := fmt.Sprintf("crs-%05d", n)
+						n++
+						if only != "" && only != name {
+							continue
+						}
+						r := newCiRec(t, w0, 1+uint64((n+opi)%5))
+						tip := uint64(0)
+						r.accept(0)
+						for h := uint64(1); h <= pre; h++ {
+							r.accept(h)
+							tip = h
+						}
+						if variant == 1 && tip > 1 {
+							r.save(tip - 1)
+						}
+						if variant == 2 {
+							r.accept(tip + 3)
+							tip += 3
+						}
+						var hit bool
+						switch op {
+						case "accept":
+							hit = r.crash("accept", tip+1, k, w0)
+						case "accept-gap":
+							hit = r.crash("accept", tip+4, k, w0)
+						default:
+							if tip < 2 {
+								continue
+							}
+							hit = r.crash("save", tip-1, k, w0)
+						}
+						stats["crash_events"]++
+						if hit {
+							stats["crash_injected_failure_hit"]++
+						}
+						if la, e := r.ci.GetLastAcceptedHeight(r.ctx); e == nil && la > tip {
+							tip = la
+							if hit {
+								stats["crash_hit_but_call_took_effect"]++
+							}
+						} else if hit && op != "save" {
+							stats["crash_hit_and_call_lost"]++
+						}
+						r.accept(tip + 1)
+						r.accept(tip + 2)
+						r.restart(w0)
+						r.dump(name)
+					}
+				}
+			}
+		}
+	}
+
 	// (b) seeded random long histories
 	for s := 0; s < scen; s++ {
 		name := fmt.Sprintf("rnd-%05d", s)
@@ -292,7 +436,7 @@ func TestVerifChainIndexRecord(t *testing.T) {
 					}
 					r.save(h)
 				}
-			default:
+			case c < 93:
 				nw := w
 				if rg.Intn(2) == 0 {
 					nw = uint64(rg.Intn(6))
@@ -300,6 +444,22 @@ func TestVerifChainIndexRecord(t *testing.T) {
 				}
 				w = nw
 				r.restart(nw)
+			default: // a call cut short after k durable writes, then reopen
+				k := uint64(rg.Intn(3))
+				stats["crash_events"]++
+				if rg.Intn(4) == 0 && tip > 2 {
+					if r.crash("save", 1+uint64(rg.Intn(int(tip-1))), k, w) {
+						stats["crash_injected_failure_hit"]++
+					}
+				} else {
+					h := tip + 1 + uint64(rg.Intn(2))*uint64(1+rg.Intn(4))
+					if r.crash("accept", h, k, w) {
+						stats["crash_injected_failure_hit"]++
+					}
+					if la, e := r.ci.GetLastAcceptedHeight(r.ctx); e == nil && la > tip {
+						tip = la
+					}
+				}
 			}
 		}
 		r.dump(name)
